@@ -244,6 +244,16 @@ def check_ethtx(pid, tier, seed, replay):
     w = Work(pid)
     try:
         focus = FOCUS[pid]
+        if replay and os.path.exists(os.path.join(replay, "kind.txt")) and open(os.path.join(replay, "kind.txt")).read().strip() == "bigcharge":
+            # the recorded execution judged again (a sample is a fact about the tree it was recorded on)
+            d = w.sub("bigreplay")
+            vlib.stage_spec(d)
+            samples = [json.loads(l) for l in open(os.path.join(replay, "samples.ndjson"))]
+            if _big_judge(d, "CB_replay", samples) == "violated":
+                log("VIOLATION property=%s replay=%s" % (pid, replay))
+                return 1
+            log("replay: accepted")
+            return 0
         if replay and os.path.exists(os.path.join(replay, "kind.txt")):
             import checks_mempool
             r = checks_mempool.mempool_replay(w, replay)
@@ -275,6 +285,8 @@ def check_ethtx(pid, tier, seed, replay):
         v.cov["samples"] = [json.loads(x) for x in first[2:5]]
         if pid == "C06":
             v.cov["classes"].update(c06_lane_vectors(v, w, tier, pid))
+        if pid == "C05":
+            big_charge(v, pid, w, tier, seed)
         if pid in ("C05", "C06"):
             import checks_mempool
             v.cov["classes"].update(checks_mempool.mempool_binding(v, pid, w, tier, seed))
@@ -285,6 +297,62 @@ def check_ethtx(pid, tier, seed, replay):
         return v.finish()
     finally:
         w.cleanup()
+
+
+# ---------------------------------------------------------------------------------------------
+# C05 at real-world magnitudes: executions of the real application judged by Apalache (spec/ChargeBig.tla)
+# ---------------------------------------------------------------------------------------------
+BIG_SIZES = {"quick": 40, "thorough": 400}
+
+
+def _big_module(path, name, samples):
+    facts = ["ChargeOk(%d, %s, %s, %s, %s, %s, %s, %s, %s, %s, %s)" % (s["typ"], s["price"], s["tip"], s["baseFee"], s["gasLimit"], s["gasUsed"],
+                                                                      s["moved"], s["before"], s["after"], s["recvDelta"], s["supplyDelta"]) for s in samples]
+    with open(path, "w") as f:
+        f.write("---- MODULE %s ----\nEXTENDS ChargeBig\nSamplesOk ==\n  /\\ %s\n====\n" % (name, "\n  /\\ ".join(facts) if facts else "TRUE"))
+
+
+def _big_judge(d, name, samples):
+    _big_module(os.path.join(d, name + ".tla"), name, samples)
+    res, _ = vlib.apalache(d, name, "SamplesOk", timeout=1200, tag="apa-" + name)
+    return res
+
+
+def big_charge(v, pid, w, tier, seed):
+    """Executed transactions at magnitudes beyond TLC's integers; returns number of violations reported."""
+    d = w.sub("bigcharge")
+    vlib.stage_spec(d)
+    sp = os.path.join(d, "samples.ndjson")
+    vlib.vh(["bigcharge", "-seed", str(seed), "-n", str(BIG_SIZES[tier]), "-out", sp], timeout=3000)
+    samples = [json.loads(l) for l in open(sp)]
+    if len(samples) < BIG_SIZES[tier] // 2:
+        raise Infra("bigcharge: only %d executed samples" % len(samples))
+    over = [s for s in samples if int(s["gasLimit"]) * int(s["price"]) >= 2 ** 64]
+    if not over:
+        raise Infra("bigcharge: no sample with a fee beyond 2^64")
+    bad = []
+    chunks = [samples[i:i + 100] for i in range(0, len(samples), 100)]
+    for ci, ch in enumerate(chunks):
+        if _big_judge(d, "CB_%d" % ci, ch) == "violated":
+            for si, s in enumerate(ch):
+                if len(bad) >= 3:
+                    break
+                if _big_judge(d, "CB_%d_%d" % (ci, si), [s]) == "violated":
+                    bad.append(s)
+    for i, s in enumerate(bad):
+        rp = vlib.save_replay(pid, "bigcharge_%d_%d" % (seed, i), [([json.dumps(s)], "samples.ndjson"), (["bigcharge"], "kind.txt")],
+                              "an executed Ethereum transaction at real-world magnitudes did not cost its sender gas used x effective price + value moved")
+        v.violation("Charge/sender-pays-gas-used-times-effective-price-plus-value:big-magnitudes", rp, json.dumps(s)[:400])
+    # self-test: one wei more must be refuted
+    c = dict(samples[0])
+    c["after"] = str(int(c["after"]) + 1)
+    if not bad and _big_judge(d, "CB_self", [c]) != "violated":
+        raise Infra("bigcharge binding vacuous: a corrupted sample is accepted")
+    v.cov["evaluations"] += len(samples)
+    v.cov["obligations"] = v.cov.get("obligations", 0) + len(samples)
+    v.cov["discharged"] = v.cov.get("discharged", 0) + len(samples) - len(bad)
+    log("big magnitudes: %d executed transactions (%d with fee >= 2^64) judged by Apalache against ChargeBig.tla, %d rejected" % (len(samples), len(over), len(bad)))
+    return len(bad)
 
 
 def validate_dir_copy(w, src, focus):
